@@ -481,6 +481,58 @@ SEEDS = {
         detected_by={"C34": "reps_expansion_samples1: number of SequenceData = sum of reps (all bad-atom patterns added)"},
         strengthened="MISSED at first: the bad-atom masks in the repetition cases never made all atoms bad. Every pattern is now chosen by the explorer",
     ),
+    # ---- fourth round (8 properties) --------------------------------------------------------------
+    "C02d": dict(
+        property="C02",
+        change="MPSBackendImpl.progress uses config.dt as the TDVP step length for noiseless runs instead of target_time - current_time",
+        needs="a noiseless run whose target-time grid has a step different from dt (duration not a multiple of dt, or an off-grid evaluation time)",
+        detected_by={"C02": "schedule_n2: local evolution #k uses the scheduled time step"},
+        strengthened="first detection was accidental (AttributeError: the schedule case still had a two-field stub config); it now uses the complete stub config, so the schedule clause fails",
+    ),
+    "C05d": dict(
+        property="C05",
+        change="a shared helper for the last-factor coefficient returns interaction_matrix[0,1] for both builders: the XY builder loses its factor 2 for exactly 2 atoms (the mechanism of round-1 seed C02 through a refactor)",
+        needs="XY interaction with exactly 2 atoms",
+        detected_by={"C05": "mpo_xy_n2_d2_noise: contract(MPO) = dense xy H (n=2, d=2)"},
+    ),
+    "C11d": dict(
+        property="C11",
+        change="MPS.__rmul__ always scales factor 0 while the result keeps the declared centre (the mechanism of seed C10b, produced for C11)",
+        needs="a scale while the declared centre is a site > 0, followed by norm()/expect_batch",
+        detected_by={"C11": "mps_scale_norm: only the centre factor is scaled"},
+    ),
+    "C13d": dict(
+        property="C13",
+        change="fill_results builds the padded state handed to observables from the raw state when a dark-atom mask is present (the mechanism of C25b/C17c, produced for C13)",
+        needs="a dark-atom mask and a state norm different from 1",
+        detected_by={"C13": "mps_fill_results_N3_d2_chi2: state handed to callbacks = (psi/norm) with dark atoms in |g>"},
+    ),
+    "C23d": dict(
+        property="C23",
+        change="the interaction cutoff compares the signed entry instead of its magnitude: every negative coupling is zeroed, even at cutoff 0",
+        needs="an interaction matrix with negative entries (user matrix, XY dipolar terms)",
+        detected_by={"C23": "cutoff_mask_n2_register: full[i,j]: below-cutoff entries are zero, the others unchanged"},
+    ),
+    "C25d": dict(
+        property="C25",
+        change="emu-sv's bad-atom wrapper multiplies the matrix by a column mask: only the rows of bad atoms are zeroed, their columns survive",
+        needs="emu-sv, a bad atom with a larger index than a good one, and noise that can excite the bad atom",
+        detected_by={"C25": "sv_bad_atoms_n2_steps1: emu-sv step 0: badly prepared atoms are not driven, detuned or interacting"},
+    ),
+    "C26d": dict(
+        property="C26",
+        change="__getstate__ drops omega/delta/phi from the snapshot and __setstate__ rebuilds them from pulser_data in REGISTER order (they are held in site order)",
+        needs="an interrupted and resumed run with reordering on and atom-dependent drives",
+        detected_by={"C26": "pickled_fields_roundtrip: restored solver: tensor attribute `omega`/`delta`/`phi` has the same values (added)"},
+        strengthened="first detection was through two clauses that prescribed the implementation ('__getstate__ saves every instance attribute'), which a correct restore-by-recomputation would also trip, and then through an AttributeError of the harness (the dark-atom mask attribute was missing because init_dark_qubits had not run). The prescriptive clauses were removed; the case now compares every attribute of the restored solver with the running one (tensors entry-wise, with atom-dependent drives and reordering on) and runs init_dark_qubits as init() does",
+    ),
+    "C30d": dict(
+        property="C30",
+        change="the Lanczos loop of double_krylov tests `n2 < tolerance * n` instead of `n2 < tolerance`: when the operator annihilates the vector (n = 0) the exhausted Krylov space is missed and the next vector is 0/0",
+        needs="a step with H|v> = 0 exactly for the state or the incoming gradient (a delay on |g..g>, a free wait with H = 0)",
+        detected_by={"C30": "lanczos_annihilated_vector_n1 (added): Lanczos on an annihilated vector stops (it does not raise) / never divides by zero"},
+        strengthened="MISSED at first: double_krylov was only ever a stub. Added a case that runs its real Lanczos loop on a vector the operator annihilates (no LAPACK kernel is reached on that input), with the divisor log",
+    ),
     "C19c": dict(
         property="C19",
         change="get_next_abscissa drops the `|dx| >= 3/4 |a-b|` half of the bisection fallback: an interpolated step is no longer bounded by the current bracket",
